@@ -17,7 +17,7 @@ EXTENDS TraceIO, SequencesExt
 VARIABLES l, i, st
 
 St0(h0) == [n |-> 0, h |-> h0, b |-> <<>>,
-            closeret |-> FALSE, closee |-> "", closet |-> "",
+            closecall |-> FALSE, closeret |-> FALSE, closee |-> "", closet |-> "", lastn |-> -1, waited |-> FALSE,
             exit |-> FALSE, exite |-> "", exitt |-> "",
             late |-> FALSE, commit |-> FALSE, ccl |-> -1,
             sel |-> "", selt |-> "",
@@ -30,8 +30,8 @@ Apply(s, e, S) ==
   CASE e.k = "SinkWrite" ->
          IF e.e = "nil"
          THEN [s EXCEPT !.n = @ + e.n, !.h = e.t, !.b = IF S.small THEN @ \o e.b ELSE @,
-                        !.late = @ \/ (s.closeret /\ e.n > 0)]
-         ELSE [s EXCEPT !.late = @ \/ (s.closeret /\ e.n > 0)]
+                        !.late = @ \/ (s.closeret /\ e.n > 0), !.lastn = e.n]
+         ELSE [s EXCEPT !.late = @ \/ (s.closeret /\ e.n > 0), !.lastn = e.n]
     [] e.k = "Read" ->
          IF e.e = "nil"
          THEN [s EXCEPT !.n = @ + e.n, !.h = e.t, !.b = IF S.small THEN @ \o e.b ELSE @]
@@ -39,6 +39,8 @@ Apply(s, e, S) ==
     [] e.k = "Ret" ->
          [s EXCEPT !.ret = TRUE, !.rete = e.e, !.rett = e.t, !.n = e.n,
                    !.h = IF e.e = "nil" THEN e.t ELSE @, !.b = IF S.small THEN e.b ELSE @]
+    [] e.k = "CloseCall" -> [s EXCEPT !.closecall = TRUE]
+    [] e.k = "hook.writer.closewaited" -> [s EXCEPT !.waited = TRUE]
     [] e.k = "CloseRet" -> [s EXCEPT !.closeret = TRUE, !.closee = e.e, !.closet = e.t]
     [] e.k \in {"hook.writer.exit", "hook.reader.exit"} -> [s EXCEPT !.exit = TRUE, !.exite = e.e, !.exitt = e.t]
     [] e.k = "hook.response.select" -> [s EXCEPT !.sel = "select", !.selt = e.t]
@@ -124,6 +126,21 @@ FinalOK(s, S) ==
               \/ Reject(l, "ChunkingInvariance: helper result differs from the plain call")
     [] OTHER -> Reject(l, "unknown mode")
 EndOK == (l <= N /\ i = Len(Trace[l].ev) + 1) => FinalOK(st, Trace[l])
+
+\* ---- design conformance (level D, information only: never a verdict) ----
+\* Facts of the design model Stream.tla that are visible in the event order.  A mismatch means the model no longer
+\* describes the code (DRIFT in the evidence); the property itself is judged by StepOK / EndOK only.
+Drift(k, what) == PrintT(<<"DRIFT", k, what>>)
+DesignOK(s, e, S) ==
+  CASE e.k = "SinkWrite" /\ Worker(s, S) ->
+         /\ s.closecall \/ Drift(l, "output before end of input")      \* WReadPipe: EOF only after the write side is closed
+         /\ ~s.exit \/ Drift(l, "sink write after worker exit")         \* WExit1 follows the probe
+    [] e.k = "hook.writer.exit" ->
+         (e.e # "nil" \/ s.lastn = 0) \/ Drift(l, "no zero-length probe")   \* WProbeSink is the last sink call
+    [] e.k = "hook.writer.closewaited" -> s.exit \/ Drift(l, "Close passed wg.Wait before worker exit")   \* PCloseRet needs wgdone
+    [] e.k = "CloseRet" /\ Worker(s, S) -> s.waited \/ Drift(l, "CloseRet without closewaited")
+    [] OTHER -> TRUE
+Design == (l <= N /\ i <= Len(Trace[l].ev)) => DesignOK(st, Trace[l].ev[i], Trace[l])
 
 Total == FoldSeq(LAMBDA x, acc : acc + Len(x.ev) + 1, 0, Trace)
 AcceptedAll == TLCGet("stats").diameter = Total + 1
